@@ -111,7 +111,7 @@ def run(spec, ctx):
         for i in range(spec["n"]):
             fields = iogen.gen_fields(rng, rng.choice([0, 1, 2, 3, 5, 8, 12, 20, 38]) if i % 6 else rng.choice([80, 120]))
             path = os.path.join(root, "hl_%d.h" % (i % 3))       # paths are reused: the file is rewritten with another table
-            im.write_pte_table(path, iogen.gen_table(rng, 2), rng, hlog_fields=fields, style=rng.randrange(128))
+            im.write_pte_table(path, iogen.gen_table(rng, 2), rng, hlog_fields=fields, style=rng.randrange(256))
             TABLES[os.path.abspath(path)] = list(fields)
             drive(ctx, hlog, rng, path, fields, "syn%d-%d" % (spec["rseed"], i))
             # the same table reached through the I/O-drawer plug-in: a drawer type pointed at this header file (its
